@@ -189,6 +189,10 @@ class LinksToVector:
     properties = ("C11",)
     params = dict(self=LINK)
 
+    def native(self):
+        from rig.links import Links
+        return Links(self).to_vector()
+
     def ensures_documented_vector(self, result):
         return result == link_vec(self)
 
@@ -197,6 +201,10 @@ class LinksToVector:
 class LinksOpposite:
     properties = ("C11",)
     params = dict(self=LINK)
+
+    def native(self):
+        from rig.links import Links
+        return Links(self).opposite
 
     def ensures_is_a_link(self, result):
         return 0 <= result <= 5
@@ -210,6 +218,10 @@ class LinksFromVector:
     properties = ("C11",)
     params = dict(cls=TConst("Links"), vector=T2)
     raises = {"KeyError": None}
+
+    def native(vector):
+        from rig.links import Links
+        return Links.from_vector(vector)
 
     def raises_KeyError(vector):
         # only the null vector has no direction
